@@ -261,6 +261,15 @@ func c04Scenario(p c04P, b Bounds) *Scenario {
 							vs.Event("call", m)
 							rsp, err := c.Call(context.Background(), m, nil)
 							callRet(m, rsp, err)
+							if rsp != nil {
+								// what a proxy does with a finished response (Response.SetID, as jhttp.Bridge does):
+								// it restores an id of its own, which may well be one this client has in flight
+								for _, o := range methods {
+									if id := h.idOf(o); o != m && id != "" {
+										rsp.SetID(id)
+									}
+								}
+							}
 						})
 					}
 				}
@@ -439,7 +448,7 @@ func c04Reissue(b Bounds) *Scenario {
 				lib, peer, pipe := NewPipe(PipeOpts{Name: "cli", CloseUnblocksRecv: true})
 				h.pipe, h.peer = pipe, peer
 				c := jrpc2.NewClient(lib, nil)
-				ctxA, cancelA := context.WithCancel(context.Background())
+				ctxA, cancelA := cancelCauseCtx()
 				var j Join
 				j.Go("caller", func() {
 					vs.Event("call", "mA")
